@@ -8,6 +8,7 @@ Profiles steer the source kinds so that the analysis kind is predictable:
   'ivp'  : some L/C carry initial conditions
   'mixed': dc + step sources together (two sub-analyses)
   'res'  : resistors only with dc / step sources (Lcapy analyses these in the time domain, kind 'time')
+  'noise': noise sources `noise V` (one noise analysis per source)
   'ac'   : ac sources `ac V phase omega` with quarter-turn phases (so every phasor is a
            Gaussian rational), one or two angular frequencies, sometimes a dc source too
 Structure: a random spanning tree over nodes 0..n built from two-terminal
@@ -81,9 +82,13 @@ def gen_netlist(rng, profile='s', size=None, extras=True, allow=None):
         nm = name('V')
         v = fs(val(rng, -6, 6) or 1)
         kind = {'dc': 'dc', 's': rng.choice(['step', 'step', 'sexp']), 'ivp': rng.choice(['step', 'dc0']),
-                'mixed': rng.choice(['dc', 'step']), 'ac': 'ac', 'res': None}[profile]
+                'mixed': rng.choice(['dc', 'step']), 'ac': 'ac', 'res': None, 'noise': 'noise'}[profile]
         if profile == 'res':       # (drawn only for this profile: the random streams of the others stay as they were)
             kind = rng.choice(['dc', 'step', 'dc0'])
+        if kind == 'noise':
+            lines.append('%s %s %s noise %s' % (nm, a, b, fs(abs(Fraction(v.strip('{}'))))))
+            tags.add('noise')
+            return nm
         if kind == 'ac':
             lines.append('%s %s %s %s' % (nm, a, b, acspec(v)))
             tags.add('ac')
@@ -101,9 +106,12 @@ def gen_netlist(rng, profile='s', size=None, extras=True, allow=None):
         a, b = orient(a, b)
         nm = name('I')
         v = fs(val(rng, -6, 6) or 1)
-        kind = {'dc': 'dc', 's': 'step', 'ivp': 'step', 'mixed': rng.choice(['dc', 'step']), 'ac': 'ac', 'res': None}[profile]
+        kind = {'dc': 'dc', 's': 'step', 'ivp': 'step', 'mixed': rng.choice(['dc', 'step']), 'ac': 'ac', 'res': None,
+                'noise': 'noise'}[profile]
         if profile == 'res':
             kind = rng.choice(['dc', 'step'])
+        if kind == 'noise':
+            v = fs(abs(Fraction(v.strip('{}'))))
         if kind == 'ac':
             lines.append('%s %s %s %s' % (nm, a, b, acspec(v)))
             tags.add('ac')
